@@ -88,7 +88,7 @@ theorem check_eq_accept (ty : PyType) (tz : Bool) (dv : DeclVals F) (v : Val F) 
 /-- texts that are the wire forms of in-domain values denote those values -/
 theorem mapM_wire (tb : Table) (ht : GoodTable tb) (row : TypeRow) (hr : goodRow row = true) (hf : fo.RoundTrips) :
     ∀ (vs : List (Val F)), (∀ v ∈ vs, rtDomain row.ty v = true) →
-      mapM' (coercePython fo tb row) (vs.map (wire fo)) = .ok vs := by
+      mapM' (coercePython fo tb row) (vs.map (wire fo)) = .ok (vs.map (expectBack row.ty)) := by
   intro vs
   induction vs with
   | nil => intro _; rfl
